@@ -865,6 +865,129 @@ def std_annotations_probe(res):
                                              f"unmarshal({ann}, argument) per parameter gives {exp}", "input": {"std_annotation": ann, "argument": src}})
 
 
+# ---- callables that compare EQUAL and are different objects (value-like strategy instances, keyed handlers): the callable that is
+# bound / wrapped is the one that is called
+EQUAL_SRC = """
+import dataclasses, decimal, typing, typelib
+@dataclasses.dataclass(frozen=True)
+class Pricer:
+    key: str
+    label: str = dataclasses.field(default='', compare=False, repr=False)
+    seen: list = dataclasses.field(default_factory=list, compare=False, repr=False)
+    def __call__(self, qty: int, price: decimal.Decimal = decimal.Decimal(1)) -> tuple:
+        self.seen.append(qty)
+        return (self.label, qty, price)
+class Keyed:
+    def __init__(self, key, label):
+        self.key, self.label, self.calls = key, label, 0
+    def __eq__(self, other):
+        return isinstance(other, Keyed) and other.key == self.key
+    def __hash__(self):
+        return hash(self.key)
+    def __call__(self, n: int):
+        self.calls += 1
+        return (self.label, n)
+"""
+
+
+def _equal_child(_job):
+    import decimal
+    import warnings
+    warnings.simplefilter("ignore")
+    ns = {}
+    _exec(EQUAL_SRC, ns)
+    import typelib
+    bad = []
+    for how in ("bind", "wrap"):
+        from typelib import binding as _b
+        mk = _b.bind if how == "bind" else _b.wrap
+        for order in ((0, 1), (1, 0)):
+            ps = [ns["Pricer"]("k", "first"), ns["Pricer"]("k", "second")]
+            ks = [ns["Keyed"]("k", "first"), ns["Keyed"]("k", "second")]
+            for objs, args, want in ((ps, ("3", "2.50"), lambda o: (o.label, 3, decimal.Decimal("2.50"))), (ks, ("4",), lambda o: (o.label, 4))):
+                try:
+                    bound = {i: mk(objs[i]) for i in order}
+                    for i in order:
+                        got = bound[i](*args)
+                        if got != want(objs[i]):
+                            bad.append(f"{how}({type(objs[i]).__name__} {objs[i].label!r}) called with {args}: got {got!r}, the callable itself gives "
+                                       f"{want(objs[i])!r} (an equal callable was {how}-ed {'before' if i == order[1] else 'after'} it)")
+                    counts = [len(o.seen) if hasattr(o, "seen") else o.calls for o in objs]
+                    if counts != [1, 1]:
+                        bad.append(f"{how}: two equal {type(objs[0]).__name__} callables, each called once through its own routine: calls received {counts}")
+                except Exception as e:  # noqa: BLE001
+                    bad.append(f"{how}({type(objs[0]).__name__}) raised {type(e).__name__}: {e}"[:200])
+    return bad
+
+
+# ---- known findings unhashableCallable / bracketReprCallable: callable INSTANCES that cannot be bound at all on the pinned tree
+INSTANCE_SRC = """
+import dataclasses
+@dataclasses.dataclass
+class Unhashable:
+    # eq=True without frozen: instances are unhashable
+    seen: tuple = ()
+    def __call__(self, n: int):
+        return ("u", n)
+class Bracket:
+    def __repr__(self):
+        return "Bracket[1]"
+    def __call__(self, n: int):
+        return ("b", n)
+class Plain:
+    def __call__(self, n: int):
+        return ("p", n)
+"""
+
+
+def _instance_child(_job):
+    import warnings
+    warnings.simplefilter("ignore")
+    ns = {}
+    _exec(INSTANCE_SRC, ns)
+    from typelib import binding as _b
+    out = []
+    for cls, tag in (("Plain", "p"), ("Unhashable", "u"), ("Bracket", "b")):
+        for how in ("bind", "wrap"):
+            try:
+                got = getattr(_b, how)(ns[cls]())("3")
+                out.append([cls, how, got == (tag, 3), repr(got)])
+            except Exception as e:  # noqa: BLE001
+                out.append([cls, how, False, f"{type(e).__name__}: {e}"[:120]])
+    return out
+
+
+def callable_instances_probe(res):
+    from .. import core, iso
+    core.import_typelib()
+    out = iso.map_isolated(_instance_child, [None], timeout=60)[0]
+    if not isinstance(out, list):
+        raise RuntimeError(f"harness: callable-instance probe failed: {out}")
+    known = {"Unhashable": ("unhashableCallable", "TypeError: unhashable type"), "Bracket": ("bracketReprCallable", "TypeError: issubclass() arg 1 must be a class")}
+    for cls, how, ok, got in out:
+        res.case({"family": "callable-instance", "class": cls, "how": how}, True)
+        if ok:
+            res.count("oracle:callable-instance-bound")
+            continue
+        f = {"what": f"{how}({cls}())('3') -> {got}; the callable itself gives ({cls[0].lower()!r}, 3)", "input": {"callable_instance": [cls, how]}}
+        if cls in known and got.startswith(known[cls][1]):
+            f["finding"] = known[cls][0]
+        res.failures.append(f)
+
+
+def equal_callables_probe(res):
+    from .. import core, iso
+    core.import_typelib()
+    bad = iso.map_isolated(_equal_child, [None], timeout=60)[0]
+    if not isinstance(bad, list):
+        raise RuntimeError(f"harness: equal-callables probe failed: {bad}")
+    res.case({"family": "equal-but-distinct-callables"}, True)
+    for b in bad:
+        res.failures.append({"what": b[:400], "input": {"equal_callables": True}})
+    if not bad:
+        res.count("oracle:equal-callables-each-called-itself", 16)
+
+
 def explore(ctx):
     res = Result()
     res.rule = RULE
@@ -872,6 +995,8 @@ def explore(ctx):
     evaluate(jobs, res)
     odd_callables_probe(res)
     std_annotations_probe(res)
+    equal_callables_probe(res)
+    callable_instances_probe(res)
     rows = {k.split(":")[1] for k in res.stats if k.startswith("row:")}
     res.extra["presence_rows_covered"] = len(rows)
     return res
@@ -883,6 +1008,19 @@ def witness(fid):
 
 def replay(failure):
     inp = failure["input"]
+    if "callable_instance" in inp:
+        from .. import core, iso
+        core.import_typelib()
+        out = iso.map_isolated(_instance_child, [None], timeout=60)[0]
+        mine = [r for r in out if r[:2] == inp["callable_instance"]] if isinstance(out, list) else out
+        print(json.dumps(mine, indent=1)[:2000])
+        return not isinstance(out, list) or any(not r[2] for r in mine)
+    if "equal_callables" in inp:
+        from .. import core, iso
+        core.import_typelib()
+        bad = iso.map_isolated(_equal_child, [None], timeout=60)[0]
+        print(json.dumps(bad, indent=1)[:3000])
+        return bool(bad)
     if "std_annotation" in inp:
         from .. import core, iso
         core.import_typelib()
